@@ -36,6 +36,7 @@ F_D14 = 'D14'
 F_PEPSIN = 'D14b-lookbehind'
 F_ADJ = 'C01-nola-adjacent-sites'
 F_FUSCRASH = 'C01-fusion-expand-crash'
+F_FUSALIGN = 'C01-fusion-align-crash'
 F_FUSJUNC = 'C02-fusion-junction-indel'
 
 # ------------------------------------------------------------------ rule classes (from the repo's table)
@@ -112,15 +113,10 @@ def run_batch(ctx, cases, want_may=True, tag='cv'):
                 reqs.append((('cv_realizable', [x, peps]), (ev, 'real', tx_id)))
                 if want_may:
                     reqs.append((('cv_may_novel', x), (ev, 'may', tx_id)))
-            # fusion backbones (Model/SpecFusion.v): soundness always, completeness when the run asks for it
-            for f in c.get('fusions', []):
-                if run.get('skip_oracle') or run_flags(run):
-                    continue
-                xd = CG.tx_input(c, f['donor_tx'], by_tx.get(f['donor_tx'], []), run, prots)
-                xa = CG.tx_input(c, f['acc_tx'], by_tx.get(f['acc_tx'], []), run, prots)
-                reqs.append((('cv_fusion_realizable', [xd, f['bp'], xa, f['abp'], peps]), (ev, 'real', f['id'])))
-                if run.get('fusion_must'):
-                    reqs.append((('cv_fusion_must', [xd, f['bp'], xa, f['abp']]), (ev, 'must', f['id'])))
+            # fusion backbones (Model/SpecFusion.v fuse_gen): soundness always, completeness when the run asks for it
+            if not (run.get('skip_oracle') or run_flags(run)):
+                for api, arg, kind, fid in fusion_requests(c, run, by_tx, prots, peps):
+                    reqs.append(((api, arg), (ev, kind, fid)))
             evs.append(ev)
     outs = O.call_parallel([q for q, _ in reqs], jobs=ctx.jobs)
     real = collections.defaultdict(lambda: None)
@@ -147,6 +143,25 @@ def run_batch(ctx, cases, want_may=True, tag='cv'):
     classify(evs)
     return evs
 
+def fusion_args(c, f, run, by_tx, prots=None):
+    """[xd; bp; mid; mvars; xa; bp'] for the oracle (general breakpoints)"""
+    from harness.lib import cvgen_fus as CF
+    fi = CF.fusion_inputs(c, f)
+    xd = CG.tx_input(c, f['donor_tx'], by_tx.get(f['donor_tx'], []), run, prots)
+    xa = CG.tx_input(c, f['acc_tx'], by_tx.get(f['acc_tx'], []), run, prots)
+    return [xd, fi['bp'], fi['mid'], [[r['s'], r['e'], r['alt'], r['ok']] for r in fi['mrecs']], xa, fi['abp']]
+
+def fusion_requests(c, run, by_tx, prots, peps):
+    """oracle requests for the fusion records of a case: (api, argument, 'real' | 'must', fusion id).
+    Also used by harness/lib/cvcheck2.py for cases that combine a fusion with AS / circRNA records."""
+    out = []
+    for f in c.get('fusions', []):
+        a = fusion_args(c, f, run, by_tx, prots)
+        out.append(('cv_fusion_realizable_g', a + [peps], 'real', f['id']))
+        if run.get('fusion_must'):
+            out.append(('cv_fusion_must_g', a, 'must', f['id']))
+    return out
+
 def run_flags(run):
     """[sect, w2f] when the run uses an alt-translation flag, else None"""
     if run.get('sect') or run.get('w2f'):
@@ -164,6 +179,14 @@ def is_fusion_crash(ev):
     r = ev.exc or {}
     return (bool(ev.case.get('fusions')) and r.get('__exc__') == 'ValueError'
             and 'expand_alignments' in r.get('tb', '') and 'call_peptide_fusion' in r.get('tb', ''))
+
+def is_fusion_align_crash(ev):
+    """callVariant aborts with IndexError (TVGNode._get_nth_rf_index on a node without locations) in
+    ThreeFrameTVG.align_variants / find_bridge_nodes_between while fitting the graph of a fusion transcript into
+    codons (seen with a record in the first bases of the retained acceptor intron piece)"""
+    r = ev.exc or {}
+    return (bool(ev.case.get('fusions')) and r.get('__exc__') == 'IndexError'
+            and 'align_variants' in r.get('tb', '') and '_get_nth_rf_index' in r.get('tb', ''))
 
 def _cds_end(case, tx_id):
     g, t = _tx_of(case, tx_id)
@@ -267,15 +290,17 @@ def classify(evs):
             if not run_flags(ev.run):
                 # fusion: an indel record within 3 nt of a breakpoint makes the engine lose / gain a base at the junction
                 for f in ev.case.get('fusions', []):
+                    a = fusion_args(ev.case, f, ev.run, ev.recs)
+                    if a[2]:
+                        continue                      # signature stated for exonic breakpoints only
                     dr = ev.recs.get(f['donor_tx'], []); ar = ev.recs.get(f['acc_tx'], [])
-                    near = [r for r in dr if len(r['alt']) != r['e'] - r['s'] and f['bp'] - 3 <= r['e'] <= f['bp'] + 3] + \
-                           [r for r in ar if len(r['alt']) != r['e'] - r['s'] and f['abp'] - 3 <= r['s'] <= f['abp'] + 3]
+                    near = [r for r in dr if len(r['alt']) != r['e'] - r['s'] and a[1] - 3 <= r['e'] <= a[1] + 3] + \
+                           [r for r in ar if len(r['alt']) != r['e'] - r['s'] and a[5] - 3 <= r['s'] <= a[5] + 3]
                     if not near:
                         continue
-                    xd = CG.tx_input(ev.case, f['donor_tx'], dr, ev.run); xa = CG.tx_input(ev.case, f['acc_tx'], ar, ev.run)
                     alts = [(d1, d2) for d1 in (-1, 0, 1) for d2 in (-1, 0, 1) if (d1, d2) != (0, 0)]
-                    oks = O.call_many([('cv_fusion_realizable', [xd, f['bp'] + d1, xa, f['abp'] + d2, extras]) for d1, d2 in alts])
-                    junc = [a or any(o[k] for o in oks) for k, a in enumerate(junc)]
+                    oks = O.call_many([('cv_fusion_realizable_g', [a[0], a[1] + d1, '', [], a[4], a[5] + d2, extras]) for d1, d2 in alts])
+                    junc = [x or any(o[k] for o in oks) for k, x in enumerate(junc)]
             for k, p in enumerate(extras):
                 tag = None
                 if d14[k]:
